@@ -165,7 +165,7 @@ def end_to_end(ctx, stg, driver, upath, n):
                     problems.append({"argv": ["new", "-m", subj], "namelength": lim, "exit": p.returncode,
                                      "stderr": p.stderr[-400:]})
                 continue
-            series = r.stg(stg, ["series", "--noprefix", "-A"]).stdout.split("\n")
+            series = r.stg(stg, ["series", "--noprefix", "-a"]).stdout.split("\n")
             series = [x for x in series if x]
             new = [x for x in series if x not in existing]
             if len(new) != 1:
@@ -187,6 +187,17 @@ def end_to_end(ctx, stg, driver, upath, n):
             bad = git_check_names([got], r.path)
             if bad:
                 problems.append({"argv": ["new", "-m", subj], "invalid_ref_name": got})
+            low = [x.lower() for x in series]
+            if len(set(low)) != len(low):
+                problems.append({"argv": ["new", "-m", subj], "namelength": lim, "existing": existing,
+                                 "invalid_ref_name": got, "why": "derived name collides with an existing patch",
+                                 "series": series})
+            # spread the existing names over applied / unapplied / hidden
+            k = rng.random()
+            if k < 0.3:
+                r.stg(stg, ["hide", "--", got if not got.startswith("-") else "\\" + got])
+            elif k < 0.55:
+                r.stg(stg, ["pop"])
             existing = series
     return runs, problems
 
